@@ -87,7 +87,7 @@ def events(path):
         elif e[0] == "next":
             out.append("each %s {" % fmt_label(e[1]))
         elif e[0] in ("iterate_end", "next_end"):
-            out.append("}")
+            out.append("}" if not (e[0] == "iterate_end" and len(e) > 4 and e[4] == "break") else "}!stops-here")
         elif is_callback(e):
             out.append("visit " + sym_of(e[2][1]))
         elif e[0] == "recurse":
